@@ -1,6 +1,443 @@
+/-
+  MultiProofs.C13 — property C13: the BLAS adaptor gives the mathematical result for every accepted view combination.
+
+  The dispatch chains are the REGENERATED definitions of MultiModel.Gen.BlasDispatch (tools/gen_blas_dispatch.py, from the
+  current /repo); the semantics of a call is the reference BLAS of MultiModel.Blas.  Structure, per chain:
+
+    * `<chain>_branch_<n>_ok`   one lemma per generated leaf that is correct: under the view invariants (`GemmShapes`, …), the
+                                leaf's guard and the stated domain `Dom`, the call of the leaf satisfies the certificate
+                                (`GemmOK`, …), hence is legal and computes the mathematical result, changing only the output;
+    * `finding_<chain>_branch_<n>`  for every leaf that is wrong (or wrong outside its domain): a concrete operand tuple inside
+                                the view invariants on which the leaf's call is illegal or its post-state is not the product;
+    * `<op>_correct_partial`    the assembly by case analysis (`<chain>.elim`, generated): whenever the chain issues a call
+                                from a leaf inside its certified domain, the post-state is the specification.  The FULL
+                                statement (no domain restriction) is FALSE for the current code — see the findings.
+-/
 import MultiModel.Blas
 import MultiModel.BlasFront
+import MultiModel.Gen.BlasDispatch
+import MultiProofs.BlasLemmas
+import MultiProofs.BlasShapes
+import MultiProofs.BlasGemm
+
 namespace Multi.C13
-open Multi.Blas
-theorem placeholder : maxI 1 0 = 1 := by decide
+open Multi.Blas Multi.Blas.Gen
+
+variable {R : Type} [CRing R]
+
+/-- discharges "the call of this leaf satisfies the certificate": unfolds the certificate to linear integer arithmetic -/
+macro "gemm_branch" : tactic => `(tactic| (
+  refine ⟨_, rfl, ?_⟩
+  unfold GemmOK
+  rw [illegal_none_iff]
+  simp only [GemmCall.Legal, OutIs, OpIs, Mat.lm, Mat.lmT, isTrans, Mat.Lin, Mat.RowOK, Mat.ColOK] at *
+  simp (config := {decide := true}) only [true_and, and_true, true_or, or_true, if_true, if_false, false_and, and_false, false_or, or_false, *] at *
+  omega))
+
+macro "wf_dec" : tactic => `(tactic| exact ⟨by decide, by decide, by decide, by decide, by decide⟩)
+macro "shapes_dec" : tactic => `(tactic| exact ⟨by wf_dec, by wf_dec, by wf_dec, by decide, by decide, by decide⟩)
+
+/-- memory used by the concrete counterexamples: distinct small values -/
+def wmem : Mem Int := fun a => a * a + 1
+
+/-! ## gemm_n, overload for non-conjugated A and B (gemm.hpp:45-86) -/
+section nn
+variable (alpha beta : R) (a b c : Mat)
+
+/-- hypotheses common to the leaves: the view invariants (in linear form), fitting sizes, no conjugation -/
+structure NNHyp (a b c : Mat) : Prop where
+  la : a.Lin
+  lb : b.Lin
+  lc : c.Lin
+  hm : a.n0 = c.n0
+  hk : a.n1 = b.n0
+  hn : b.n1 = c.n1
+  ha : a.cj = false
+  hb : b.cj = false
+  hc : c.cj = false
+
+theorem NNHyp.of {a b c : Mat} (hs : GemmShapes a b c) (ha : a.cj = false) (hb : b.cj = false) (hc : c.cj = false) : NNHyp a b c :=
+  ⟨hs.wa.lin, hs.wb.lin, hs.wc.lin, hs.m, hs.k, hs.n, ha, hb, hc⟩
+
+/-- gemm.hpp:80 — A, B, C column-major: C = A·B directly -/
+theorem gemm_nn_branch_2_ok (H : NNHyp a b c) (h : gemm_n_nn.guard_2 a b c) (d : a.ColOK ∧ b.ColOK ∧ c.ColOK) :
+    ∃ g, gemm_n_nn.call_2 alpha beta a b c = .gemm g ∧ GemmOK g alpha beta a b c := by
+  obtain ⟨la, lb, lc, hm, hk, hn, ha, hb, hc⟩ := H; unfold gemm_n_nn.guard_2 at h; gemm_branch
+
+/-- gemm.hpp:79 — column-major, B a single column -/
+theorem gemm_nn_branch_3_ok (H : NNHyp a b c) (h : gemm_n_nn.guard_3 a b c) (d : a.ColOK ∧ b.ColOK) :
+    ∃ g, gemm_n_nn.call_3 alpha beta a b c = .gemm g ∧ GemmOK g alpha beta a b c := by
+  obtain ⟨la, lb, lc, hm, hk, hn, ha, hb, hc⟩ := H; unfold gemm_n_nn.guard_3 at h; gemm_branch
+
+/-- gemm.hpp:82 — A, B column-major, C row-major: Cᵀ = Bᵀ·Aᵀ with both operands transposed -/
+theorem gemm_nn_branch_4_ok (H : NNHyp a b c) (h : gemm_n_nn.guard_4 a b c) (d : a.ColOK ∧ b.ColOK ∧ c.RowOK) :
+    ∃ g, gemm_n_nn.call_4 alpha beta a b c = .gemm g ∧ GemmOK g alpha beta a b c := by
+  obtain ⟨la, lb, lc, hm, hk, hn, ha, hb, hc⟩ := H; unfold gemm_n_nn.guard_4 at h; gemm_branch
+
+/-- gemm.hpp:68 — A column-major, B row-major, C column-major -/
+theorem gemm_nn_branch_5_ok (H : NNHyp a b c) (h : gemm_n_nn.guard_5 a b c) (d : a.ColOK ∧ b.RowOK ∧ c.ColOK) :
+    ∃ g, gemm_n_nn.call_5 alpha beta a b c = .gemm g ∧ GemmOK g alpha beta a b c := by
+  obtain ⟨la, lb, lc, hm, hk, hn, ha, hb, hc⟩ := H; unfold gemm_n_nn.guard_5 at h; gemm_branch
+
+/-- gemm.hpp:65 — A column-major, B and C row-major -/
+theorem gemm_nn_branch_7_ok (H : NNHyp a b c) (h : gemm_n_nn.guard_7 a b c) (d : a.ColOK ∧ b.RowOK ∧ c.RowOK) :
+    ∃ g, gemm_n_nn.call_7 alpha beta a b c = .gemm g ∧ GemmOK g alpha beta a b c := by
+  obtain ⟨la, lb, lc, hm, hk, hn, ha, hb, hc⟩ := H; unfold gemm_n_nn.guard_7 at h; gemm_branch
+
+/-- gemm.hpp:64 — the `a_count==1` variant of the previous leaf passes ldc = a_count = 1: legal only for a single column of C
+    (for more columns core::gemm throws "failed 'ldc >= max(1, m)'" in every build: rejected, not miscomputed) -/
+theorem gemm_nn_branch_8_ok (H : NNHyp a b c) (h : gemm_n_nn.guard_8 a b c) (d : a.ColOK ∧ b.RowOK ∧ c.n1 ≤ 1) :
+    ∃ g, gemm_n_nn.call_8 alpha beta a b c = .gemm g ∧ GemmOK g alpha beta a b c := by
+  obtain ⟨la, lb, lc, hm, hk, hn, ha, hb, hc⟩ := H; unfold gemm_n_nn.guard_8 at h; gemm_branch
+
+/-- gemm.hpp:70 — 1×k times k×1: correct; with k = 0 the leading dimension `(*a_first).size()` = 0 is illegal for the
+    reference BLAS (OpenBLAS accepts it) -/
+theorem gemm_nn_branch_10_ok (H : NNHyp a b c) (h : gemm_n_nn.guard_10 a b c) (d : 1 ≤ a.n1) :
+    ∃ g, gemm_n_nn.call_10 alpha beta a b c = .gemm g ∧ GemmOK g alpha beta a b c := by
+  obtain ⟨la, lb, lc, hm, hk, hn, ha, hb, hc⟩ := H; unfold gemm_n_nn.guard_10 at h; gemm_branch
+
+/-- gemm.hpp:77 — A row-major, B column-major, C row-major -/
+theorem gemm_nn_branch_13_ok (H : NNHyp a b c) (h : gemm_n_nn.guard_13 a b c) (d : a.RowOK ∧ b.ColOK ∧ c.RowOK) :
+    ∃ g, gemm_n_nn.call_13 alpha beta a b c = .gemm g ∧ GemmOK g alpha beta a b c := by
+  obtain ⟨la, lb, lc, hm, hk, hn, ha, hb, hc⟩ := H; unfold gemm_n_nn.guard_13 at h; gemm_branch
+
+/-- gemm.hpp:62 — A, B row-major, C column-major -/
+theorem gemm_nn_branch_15_ok (H : NNHyp a b c) (h : gemm_n_nn.guard_15 a b c) (d : a.RowOK ∧ b.RowOK ∧ c.ColOK) :
+    ∃ g, gemm_n_nn.call_15 alpha beta a b c = .gemm g ∧ GemmOK g alpha beta a b c := by
+  obtain ⟨la, lb, lc, hm, hk, hn, ha, hb, hc⟩ := H; unfold gemm_n_nn.guard_15 at h; gemm_branch
+
+/-- gemm.hpp:59 — the main leaf: A, B, C row-major, Cᵀ = Bᵀ·Aᵀ -/
+theorem gemm_nn_branch_17_ok (H : NNHyp a b c) (h : gemm_n_nn.guard_17 a b c) (d : a.RowOK ∧ b.RowOK ∧ c.RowOK) :
+    ∃ g, gemm_n_nn.call_17 alpha beta a b c = .gemm g ∧ GemmOK g alpha beta a b c := by
+  obtain ⟨la, lb, lc, hm, hk, hn, ha, hb, hc⟩ := H; unfold gemm_n_nn.guard_17 at h; gemm_branch
+
+/-- gemm.hpp:57 — 1×k times k×1, everything row-major: passes `(*b_first).size()` = 1 as the leading dimension of B:
+    right only when B is contiguous (stride 1) or k ≤ 1 -/
+theorem gemm_nn_branch_18_ok (H : NNHyp a b c) (h : gemm_n_nn.guard_18 a b c) (d : (b.s0 = 1 ∨ a.n1 ≤ 1) ∧ 1 ≤ a.n1) :
+    ∃ g, gemm_n_nn.call_18 alpha beta a b c = .gemm g ∧ GemmOK g alpha beta a b c := by
+  obtain ⟨la, lb, lc, hm, hk, hn, ha, hb, hc⟩ := H; unfold gemm_n_nn.guard_18 at h; gemm_branch
+
+/-- gemm.hpp:58 — 1×k times k×n, row-major -/
+theorem gemm_nn_branch_19_ok (H : NNHyp a b c) (h : gemm_n_nn.guard_19 a b c) (d : b.RowOK ∧ 1 ≤ a.n1 ∧ 1 ≤ b.n1) :
+    ∃ g, gemm_n_nn.call_19 alpha beta a b c = .gemm g ∧ GemmOK g alpha beta a b c := by
+  obtain ⟨la, lb, lc, hm, hk, hn, ha, hb, hc⟩ := H; unfold gemm_n_nn.guard_19 at h; gemm_branch
+
+/-- the domain in which each leaf of `gemm_n_nn` is certified (False: the leaf is wrong, see `finding_gemm_nn_branch_*`) -/
+def gemmNNDom (t : Nat) (a b c : Mat) : Prop :=
+  match t with
+  | 2 => a.ColOK ∧ b.ColOK ∧ c.ColOK
+  | 3 => a.ColOK ∧ b.ColOK
+  | 4 => a.ColOK ∧ b.ColOK ∧ c.RowOK
+  | 5 => a.ColOK ∧ b.RowOK ∧ c.ColOK
+  | 7 => a.ColOK ∧ b.RowOK ∧ c.RowOK
+  | 8 => a.ColOK ∧ b.RowOK ∧ c.n1 ≤ 1
+  | 10 => 1 ≤ a.n1
+  | 13 => a.RowOK ∧ b.ColOK ∧ c.RowOK
+  | 15 => a.RowOK ∧ b.RowOK ∧ c.ColOK
+  | 17 => a.RowOK ∧ b.RowOK ∧ c.RowOK
+  | 18 => (b.s0 = 1 ∨ a.n1 ≤ 1) ∧ 1 ≤ a.n1
+  | 19 => b.RowOK ∧ 1 ≤ a.n1 ∧ 1 ≤ b.n1
+  | _ => False
+
+end nn
+
+/-- assembly for the non-conjugated overload: every call issued from a leaf inside its certified domain satisfies the certificate -/
+theorem gemm_nn_certified {nd : Bool} {alpha beta : R} {a b c : Mat} {t : Nat} {cl : Call R}
+    (H : NNHyp a b c) (h : gemm_n_nn nd alpha beta a b c = .call t cl) (hd : gemmNNDom t a b c) :
+    ∃ g, cl = .gemm g ∧ GemmOK g alpha beta a b c := by
+  revert hd
+  refine gemm_n_nn.elim h (fun t cl => gemmNNDom t a b c → ∃ g, cl = .gemm g ∧ GemmOK g alpha beta a b c)
+    ?_ ?_ ?_ ?_ ?_ ?_ ?_ ?_ ?_ ?_ ?_ ?_ ?_ ?_ ?_ ?_ ?_ ?_
+  · exact fun g d => gemm_nn_branch_2_ok alpha beta a b c H g d
+  · exact fun g d => gemm_nn_branch_3_ok alpha beta a b c H g d
+  · exact fun g d => gemm_nn_branch_4_ok alpha beta a b c H g d
+  · exact fun g d => gemm_nn_branch_5_ok alpha beta a b c H g d
+  · exact fun _ d => d.elim
+  · exact fun g d => gemm_nn_branch_7_ok alpha beta a b c H g d
+  · exact fun g d => gemm_nn_branch_8_ok alpha beta a b c H g d
+  · exact fun _ d => d.elim
+  · exact fun g d => gemm_nn_branch_10_ok alpha beta a b c H g d
+  · exact fun _ d => d.elim
+  · exact fun _ d => d.elim
+  · exact fun g d => gemm_nn_branch_13_ok alpha beta a b c H g d
+  · exact fun _ d => d.elim
+  · exact fun g d => gemm_nn_branch_15_ok alpha beta a b c H g d
+  · exact fun _ d => d.elim
+  · exact fun g d => gemm_nn_branch_17_ok alpha beta a b c H g d
+  · exact fun g d => gemm_nn_branch_18_ok alpha beta a b c H g d
+  · exact fun g d => gemm_nn_branch_19_ok alpha beta a b c H g d
+
+/-! ## gemm_n, overloads with a conjugated operand (gemm.hpp:88-148) -/
+section conj
+variable (alpha beta : R) (a b c : Mat)
+
+/-- hypotheses for an overload: invariants, fitting sizes, the conjugation pattern the overload is selected for -/
+structure CHyp (ca cb : Bool) (a b c : Mat) : Prop where
+  la : a.Lin
+  lb : b.Lin
+  lc : c.Lin
+  hm : a.n0 = c.n0
+  hk : a.n1 = b.n0
+  hn : b.n1 = c.n1
+  ha : a.cj = ca
+  hb : b.cj = cb
+  hc : c.cj = false
+
+/-- gemm.hpp:103 — A·conj(B) with A row-major, B column-major, C row-major: Cᵀ = Bᴴ·Aᵀ -/
+theorem gemm_nc_branch_5_ok (H : CHyp false true a b c) (h : gemm_n_nc.guard_5 a b c) (d : a.RowOK ∧ b.ColOK ∧ c.RowOK) :
+    ∃ g, gemm_n_nc.call_5 alpha beta a b c = .gemm g ∧ GemmOK g alpha beta a b c := by
+  obtain ⟨la, lb, lc, hm, hk, hn, ha, hb, hc⟩ := H; unfold gemm_n_nc.guard_5 at h; gemm_branch
+
+/-- gemm.hpp:128 — conj(A)·B with A column-major, B and C row-major: Cᵀ = Bᵀ·Aᴴ -/
+theorem gemm_cn_branch_2_ok (H : CHyp true false a b c) (h : gemm_n_cn.guard_2 a b c) (d : a.ColOK ∧ b.RowOK ∧ c.RowOK) :
+    ∃ g, gemm_n_cn.call_2 alpha beta a b c = .gemm g ∧ GemmOK g alpha beta a b c := by
+  obtain ⟨la, lb, lc, hm, hk, hn, ha, hb, hc⟩ := H; unfold gemm_n_cn.guard_2 at h; gemm_branch
+
+/-- gemm.hpp:127 — the `a_count==1` variant passes ldc = `(*a_first).size()` = k: legal only when n ≤ k
+    (otherwise core::gemm throws "failed 'ldc >= max(1, m)'": rejected) -/
+theorem gemm_cn_branch_3_ok (H : CHyp true false a b c) (h : gemm_n_cn.guard_3 a b c) (d : a.ColOK ∧ b.RowOK ∧ c.n1 ≤ a.n1 ∧ 1 ≤ a.n1) :
+    ∃ g, gemm_n_cn.call_3 alpha beta a b c = .gemm g ∧ GemmOK g alpha beta a b c := by
+  obtain ⟨la, lb, lc, hm, hk, hn, ha, hb, hc⟩ := H; unfold gemm_n_cn.guard_3 at h; gemm_branch
+
+def gemmNCDom (t : Nat) (a b c : Mat) : Prop :=
+  match t with
+  | 5 => a.RowOK ∧ b.ColOK ∧ c.RowOK
+  | _ => False     -- 2, 3, 4, 6, 7: wrong (finding_gemm_nc_branch_*)
+
+def gemmCNDom (t : Nat) (a b c : Mat) : Prop :=
+  match t with
+  | 2 => a.ColOK ∧ b.RowOK ∧ c.RowOK
+  | 3 => a.ColOK ∧ b.RowOK ∧ c.n1 ≤ a.n1 ∧ 1 ≤ a.n1
+  | _ => False
+
+/-- the only leaf of the (conj A, conj B) overload is wrong (finding_gemm_cc_branch_2) -/
+def gemmCCDom (_t : Nat) (_a _b _c : Mat) : Prop := False
+
+end conj
+
+theorem gemm_nc_certified {nd : Bool} {alpha beta : R} {a b c : Mat} {t : Nat} {cl : Call R}
+    (H : CHyp false true a b c) (h : gemm_n_nc nd alpha beta a b c = .call t cl) (hd : gemmNCDom t a b c) :
+    ∃ g, cl = .gemm g ∧ GemmOK g alpha beta a b c := by
+  revert hd
+  refine gemm_n_nc.elim h (fun t cl => gemmNCDom t a b c → ∃ g, cl = .gemm g ∧ GemmOK g alpha beta a b c) ?_ ?_ ?_ ?_ ?_ ?_
+  · exact fun _ d => d.elim
+  · exact fun _ d => d.elim
+  · exact fun _ d => d.elim
+  · exact fun g d => gemm_nc_branch_5_ok alpha beta a b c H g d
+  · exact fun _ d => d.elim
+  · exact fun _ d => d.elim
+
+theorem gemm_cn_certified {nd : Bool} {alpha beta : R} {a b c : Mat} {t : Nat} {cl : Call R}
+    (H : CHyp true false a b c) (h : gemm_n_cn nd alpha beta a b c = .call t cl) (hd : gemmCNDom t a b c) :
+    ∃ g, cl = .gemm g ∧ GemmOK g alpha beta a b c := by
+  revert hd
+  refine gemm_n_cn.elim h (fun t cl => gemmCNDom t a b c → ∃ g, cl = .gemm g ∧ GemmOK g alpha beta a b c) ?_ ?_
+  · exact fun g d => gemm_cn_branch_2_ok alpha beta a b c H g d
+  · exact fun g d => gemm_cn_branch_3_ok alpha beta a b c H g d
+
+/-- the certified domain of `gemm_n` as a whole (overload selected by the conjugation of A and B) -/
+def gemmDom (t : Nat) (a b c : Mat) : Prop :=
+  match a.cj, b.cj with
+  | false, false => gemmNNDom t a b c
+  | false, true => gemmNCDom t a b c
+  | true, false => gemmCNDom t a b c
+  | true, true => gemmCCDom t a b c
+
+/-- **gemm_n: certified leaves.**  For operands within the view invariants, whenever `gemm_n` issues a call from a leaf
+    inside its certified domain, the call satisfies the certificate `GemmOK`. -/
+theorem gemm_n_certified {nd : Bool} {alpha beta : R} {a b c : Mat} {t : Nat} {cl : Call R}
+    (hs : GemmShapes a b c) (hc : c.cj = false) (h : gemm_n nd alpha beta a b c = .call t cl) (hd : gemmDom t a b c) :
+    ∃ g, cl = .gemm g ∧ GemmOK g alpha beta a b c := by
+  unfold gemm_n at h
+  unfold gemmDom at hd
+  cases ha : a.cj <;> cases hb : b.cj <;> simp only [ha, hb] at h hd
+  · exact gemm_nn_certified (NNHyp.of hs ha hb hc) h hd
+  · exact gemm_nc_certified ⟨hs.wa.lin, hs.wb.lin, hs.wc.lin, hs.m, hs.k, hs.n, ha, hb, hc⟩ h hd
+  · exact gemm_cn_certified ⟨hs.wa.lin, hs.wb.lin, hs.wc.lin, hs.m, hs.k, hs.n, ha, hb, hc⟩ h hd
+  · exact hd.elim
+
+/-- **dispatch_legal (partial)** and **gemm_correct (partial)** for `gemm_n`: inside the certified domain the call is
+    legal for the reference BLAS, its post-state is C := alpha·A·B + beta·C on the logical contents, and no address outside
+    the image of C changes (in particular A and B, which do not overlap C, are unchanged).
+
+    FULL statement (FALSE for the current code, see `finding_gemm_*`): the same without `hd`. -/
+theorem gemm_n_correct_partial {nd : Bool} {alpha beta : R} {a b c : Mat} {t : Nat} {cl : Call R}
+    (hs : GemmShapes a b c) (hc : c.cj = false) (h : gemm_n nd alpha beta a b c = .call t cl) (hd : gemmDom t a b c) :
+    ∃ g, cl = .gemm g ∧ g.Legal ∧ ∀ mem : Mem R, GemmSpec alpha beta a b c mem (g.exec mem) := by
+  obtain ⟨g, hg, hok⟩ := gemm_n_certified hs hc h hd
+  exact ⟨g, hg, (illegal_none_iff g).mp hok.1, fun mem => gemmOK_sound hc hok mem⟩
+
+/-! ## dispatch_legal in assertion-enabled builds (FULL for gemm)
+
+  `core::gemm` (core.hpp:513-533) re-checks the leading dimensions with BOOST_MULTI_ASSERT1, which throws when NDEBUG is not
+  defined.  Hence in an assertion-enabled build every call of `gemm_n` that reaches the Fortran routine is legal — the wrong
+  leading dimensions of the special-case leaves surface as `std::logic_error` (a rejection), not as a silent XERBLA return.
+  With NDEBUG only the `ldc` check remains and the statement is false (findings with "illegal" in their description). -/
+
+def callLegal : Call R → Prop
+  | .gemm g => g.Legal
+  | _ => True
+
+macro "legal_leaf" : tactic => `(tactic| (
+  intro _ hc
+  simp only [Front.coreThrows] at hc
+  simp at hc
+  simp only [maxI_le_iff, le_maxI_iff, Mat.Lin] at *
+  simp (config := {decide := true}) only [callLegal, GemmCall.Legal, isTrans, true_and, and_true, if_true, if_false]
+  omega))
+
+theorem gemm_n_nn_legal_debug {alpha beta : R} {a b c : Mat} {t : Nat} {cl : Call R}
+    (la : a.Lin) (lb : b.Lin) (lc : c.Lin)
+    (h : gemm_n_nn false alpha beta a b c = .call t cl) (hc : Front.coreThrows false cl = false) : callLegal cl := by
+  revert hc
+  refine gemm_n_nn.elim h (fun t cl => Front.coreThrows false cl = false → callLegal cl) ?_ ?_ ?_ ?_ ?_ ?_ ?_ ?_ ?_ ?_ ?_ ?_ ?_ ?_ ?_ ?_ ?_ ?_
+  · unfold gemm_n_nn.call_2; legal_leaf
+  · unfold gemm_n_nn.call_3; legal_leaf
+  · unfold gemm_n_nn.call_4; legal_leaf
+  · unfold gemm_n_nn.call_5; legal_leaf
+  · unfold gemm_n_nn.call_6; legal_leaf
+  · unfold gemm_n_nn.call_7; legal_leaf
+  · unfold gemm_n_nn.call_8; legal_leaf
+  · unfold gemm_n_nn.call_9; legal_leaf
+  · unfold gemm_n_nn.call_10; legal_leaf
+  · unfold gemm_n_nn.call_11; legal_leaf
+  · unfold gemm_n_nn.call_12; legal_leaf
+  · unfold gemm_n_nn.call_13; legal_leaf
+  · unfold gemm_n_nn.call_14; legal_leaf
+  · unfold gemm_n_nn.call_15; legal_leaf
+  · unfold gemm_n_nn.call_16; legal_leaf
+  · unfold gemm_n_nn.call_17; legal_leaf
+  · unfold gemm_n_nn.call_18; legal_leaf
+  · unfold gemm_n_nn.call_19; legal_leaf
+
+theorem gemm_n_nc_legal_debug {alpha beta : R} {a b c : Mat} {t : Nat} {cl : Call R}
+    (la : a.Lin) (lb : b.Lin) (lc : c.Lin)
+    (h : gemm_n_nc false alpha beta a b c = .call t cl) (hc : Front.coreThrows false cl = false) : callLegal cl := by
+  revert hc
+  refine gemm_n_nc.elim h (fun t cl => Front.coreThrows false cl = false → callLegal cl) ?_ ?_ ?_ ?_ ?_ ?_
+  · unfold gemm_n_nc.call_2; legal_leaf
+  · unfold gemm_n_nc.call_3; legal_leaf
+  · unfold gemm_n_nc.call_4; legal_leaf
+  · unfold gemm_n_nc.call_5; legal_leaf
+  · unfold gemm_n_nc.call_6; legal_leaf
+  · unfold gemm_n_nc.call_7; legal_leaf
+
+theorem gemm_n_cn_legal_debug {alpha beta : R} {a b c : Mat} {t : Nat} {cl : Call R}
+    (la : a.Lin) (lb : b.Lin) (lc : c.Lin)
+    (h : gemm_n_cn false alpha beta a b c = .call t cl) (hc : Front.coreThrows false cl = false) : callLegal cl := by
+  revert hc
+  refine gemm_n_cn.elim h (fun t cl => Front.coreThrows false cl = false → callLegal cl) ?_ ?_
+  · unfold gemm_n_cn.call_2; legal_leaf
+  · unfold gemm_n_cn.call_3; legal_leaf
+
+theorem gemm_n_cc_legal_debug {alpha beta : R} {a b c : Mat} {t : Nat} {cl : Call R}
+    (la : a.Lin) (lb : b.Lin) (lc : c.Lin)
+    (h : gemm_n_cc false alpha beta a b c = .call t cl) (hc : Front.coreThrows false cl = false) : callLegal cl := by
+  revert hc
+  refine gemm_n_cc.elim h (fun t cl => Front.coreThrows false cl = false → callLegal cl) ?_
+  · unfold gemm_n_cc.call_2; legal_leaf
+
+/-- **dispatch_legal, assertion-enabled builds (full).**  Every BLAS call that `gemm_n` issues and that passes the checks of
+    `core::gemm` is legal for the reference BLAS — for all sizes, strides and conjugation patterns. -/
+theorem gemm_dispatch_legal_debug {alpha beta : R} {a b c : Mat} {t : Nat} {cl : Call R}
+    (wa : a.WF) (wb : b.WF) (wc : c.WF)
+    (h : gemm_n false alpha beta a b c = .call t cl) (hc : Front.coreThrows false cl = false) : callLegal cl := by
+  unfold gemm_n at h
+  cases ha : a.cj <;> cases hb : b.cj <;> simp only [ha, hb] at h
+  · exact gemm_n_nn_legal_debug wa.lin wb.lin wc.lin h hc
+  · exact gemm_n_nc_legal_debug wa.lin wb.lin wc.lin h hc
+  · exact gemm_n_cn_legal_debug wa.lin wb.lin wc.lin h hc
+  · exact gemm_n_cc_legal_debug wa.lin wb.lin wc.lin h hc
+
+/-! ## Findings: leaves of `gemm_n` that are wrong
+
+  Each theorem exhibits operands INSIDE the view invariants and inside the leaf's guard for which the call issued by the
+  leaf is illegal for the reference BLAS (XERBLA: nothing is computed) or is legal but its post-state is not
+  alpha·A·B + beta·C.  The ring is the Gaussian integers, alpha = 1, beta = 2 + i, memory `zmem`.  The same classes are
+  reproduced against the real library by harness/blas.cpp (findings/C13.json). -/
+
+def zmem : Mem GInt := fun a => ⟨a * a + 1, 2 * a + 3⟩
+
+structure GemmCounterexample (guard : Mat → Mat → Mat → Prop) (call : GInt → GInt → Mat → Mat → Mat → Call GInt) (a b c : Mat) : Prop where
+  shapes : GemmShapes a b c
+  noconjC : c.cj = false
+  guard : guard a b c
+  bad : ∃ g : GemmCall GInt, call 1 ⟨2, 1⟩ a b c = .gemm g ∧ (g.illegal ≠ none ∨ ¬ GemmSpec 1 ⟨2, 1⟩ a b c zmem (g.exec zmem))
+
+/-- gemm.hpp:145 [(((a.s0 = 1) ∧ (b.s0 = 1)) ∧ (c.s1 = 1))] at size class m1ngk0: legal call, element (0,1) of the result is wrong -/
+theorem finding_gemm_cc_branch_2 : GemmCounterexample gemm_n_cc.guard_2 gemm_n_cc.call_2 ⟨0, 1, 4, 1, 0, true⟩ ⟨100, 1, 1, 0, 2, true⟩ ⟨200, 2, 1, 1, 2, false⟩ :=
+  ⟨by shapes_dec, rfl, by decide, _, rfl, Or.inr (fun h => absurd (h.elems 0 1 (by decide) (by decide) (by decide) (by decide)) (by decide))⟩
+
+/-- gemm.hpp:128 [(((a.s0 = 1) ∧ (b.s1 = 1)) ∧ (c.s1 = 1))] at size class mgn1k0: illegal call (XERBLA parameter 10) -/
+theorem finding_gemm_cn_branch_2 : GemmCounterexample gemm_n_cn.guard_2 gemm_n_cn.call_2 ⟨0, 1, 1, 2, 0, true⟩ ⟨100, 1, 1, 0, 1, false⟩ ⟨200, 1, 1, 2, 1, false⟩ :=
+  ⟨by shapes_dec, rfl, by decide, _, rfl, Or.inl (by decide)⟩
+
+/-- gemm.hpp:107 [(((a.s0 = 1) ∧ (b.s0 = 1)) ∧ (c.s0 = 1))] at size class m1ngk0: legal call, element (0,1) of the result is wrong -/
+theorem finding_gemm_nc_branch_2 : GemmCounterexample gemm_n_nc.guard_2 gemm_n_nc.call_2 ⟨0, 1, 4, 1, 0, false⟩ ⟨100, 1, 1, 0, 2, true⟩ ⟨200, 1, 6, 1, 2, false⟩ :=
+  ⟨by shapes_dec, rfl, by decide, _, rfl, Or.inr (fun h => absurd (h.elems 0 1 (by decide) (by decide) (by decide) (by decide)) (by decide))⟩
+
+/-- gemm.hpp:109 [(((a.s0 = 1) ∧ (b.s0 = 1)) ∧ (c.s1 = 1))] at size class m1ngk0: legal call, element (0,1) of the result is wrong -/
+theorem finding_gemm_nc_branch_3 : GemmCounterexample gemm_n_nc.guard_3 gemm_n_nc.call_3 ⟨0, 1, 4, 1, 0, false⟩ ⟨100, 1, 1, 0, 2, true⟩ ⟨200, 2, 1, 1, 2, false⟩ :=
+  ⟨by shapes_dec, rfl, by decide, _, rfl, Or.inr (fun h => absurd (h.elems 0 1 (by decide) (by decide) (by decide) (by decide)) (by decide))⟩
+
+/-- gemm.hpp:105 [(((a.s1 = 1) ∧ (b.s0 = 1)) ∧ (c.s0 = 1))] at size class m1ngk0: legal call, element (0,1) of the result is wrong -/
+theorem finding_gemm_nc_branch_4 : GemmCounterexample gemm_n_nc.guard_4 gemm_n_nc.call_4 ⟨0, 1, 1, 1, 0, false⟩ ⟨100, 1, 1, 0, 4, true⟩ ⟨200, 1, 4, 1, 4, false⟩ :=
+  ⟨by shapes_dec, rfl, by decide, _, rfl, Or.inr (fun h => absurd (h.elems 0 1 (by decide) (by decide) (by decide) (by decide)) (by decide))⟩
+
+/-- gemm.hpp:102 [(((a.s1 = 1) ∧ (b.s0 = 1)) ∧ (c.s1 = 1)) ; (a.n0 = 1)] at size class m1ngk1: legal call, element (0,1) of the result is wrong -/
+theorem finding_gemm_nc_branch_6 : GemmCounterexample gemm_n_nc.guard_6 gemm_n_nc.call_6 ⟨0, 1, 1, 1, 1, false⟩ ⟨100, 1, 3, 1, 3, true⟩ ⟨200, 6, 1, 1, 3, false⟩ :=
+  ⟨by shapes_dec, rfl, by decide, _, rfl, Or.inr (fun h => absurd (h.elems 0 1 (by decide) (by decide) (by decide) (by decide)) (by decide))⟩
+
+/-- gemm.hpp:100 [(((a.s1 = 1) ∧ (b.s1 = 1)) ∧ (c.s1 = 1))] at size class mgn1k1: legal call, element (1,0) of the result is wrong -/
+theorem finding_gemm_nc_branch_7 : GemmCounterexample gemm_n_nc.guard_7 gemm_n_nc.call_7 ⟨0, 4, 1, 2, 1, false⟩ ⟨100, 1, 1, 1, 1, true⟩ ⟨200, 1, 1, 2, 1, false⟩ :=
+  ⟨by shapes_dec, rfl, by decide, _, rfl, Or.inr (fun h => absurd (h.elems 1 0 (by decide) (by decide) (by decide) (by decide)) (by decide))⟩
+
+/-- gemm.hpp:68 [(((a.s0 = 1) ∧ (b.s1 = 1)) ∧ (c.s0 = 1))] at size class mgngk0: illegal call (XERBLA parameter 10) -/
+theorem finding_gemm_nn_branch_5 : GemmCounterexample gemm_n_nn.guard_5 gemm_n_nn.call_5 ⟨0, 1, 4, 4, 0, false⟩ ⟨100, 1, 1, 0, 3, false⟩ ⟨200, 1, 8, 4, 3, false⟩ :=
+  ⟨by shapes_dec, rfl, by decide, _, rfl, Or.inl (by decide)⟩
+
+/-- gemm.hpp:67 [(((a.s0 = 1) ∧ (b.s1 = 1)) ∧ (c.s0 = 1)) ; (a.n0 = 1)] at size class m1n1kg: legal call, element (0,0) of the result is wrong -/
+theorem finding_gemm_nn_branch_6 : GemmCounterexample gemm_n_nn.guard_6 gemm_n_nn.call_6 ⟨0, 1, 4, 1, 2, false⟩ ⟨100, 4, 1, 2, 1, false⟩ ⟨200, 1, 4, 1, 1, false⟩ :=
+  ⟨by shapes_dec, rfl, by decide, _, rfl, Or.inr (fun h => absurd (h.elems 0 0 (by decide) (by decide) (by decide) (by decide)) (by decide))⟩
+
+/-- gemm.hpp:65 [(((a.s0 = 1) ∧ (b.s1 = 1)) ∧ (c.s1 = 1))] at size class mgngk0: illegal call (XERBLA parameter 8) -/
+theorem finding_gemm_nn_branch_7 : GemmCounterexample gemm_n_nn.guard_7 gemm_n_nn.call_7 ⟨0, 1, 8, 3, 0, false⟩ ⟨100, 1, 1, 0, 4, false⟩ ⟨200, 7, 1, 3, 4, false⟩ :=
+  ⟨by shapes_dec, rfl, by decide, _, rfl, Or.inl (by decide)⟩
+
+/-- gemm.hpp:74 [(((a.s1 = 1) ∧ (b.s0 = 1)) ∧ (c.s0 = 1))] at size class mgn1kg: legal call, element (0,0) of the result is wrong -/
+theorem finding_gemm_nn_branch_9 : GemmCounterexample gemm_n_nn.guard_9 gemm_n_nn.call_9 ⟨0, 3, 1, 3, 3, false⟩ ⟨100, 1, 5, 3, 1, false⟩ ⟨200, 1, 5, 3, 1, false⟩ :=
+  ⟨by shapes_dec, rfl, by decide, _, rfl, Or.inr (fun h => absurd (h.elems 0 0 (by decide) (by decide) (by decide) (by decide)) (by decide))⟩
+
+/-- gemm.hpp:73 [(((a.s1 = 1) ∧ (b.s0 = 1)) ∧ (c.s0 = 1)) ; ((a.n1 = 1) ∧ (b.n1 = 1))] at size class mgn1k1: legal call, element (1,0) of the result is wrong -/
+theorem finding_gemm_nn_branch_11 : GemmCounterexample gemm_n_nn.guard_11 gemm_n_nn.call_11 ⟨0, 1, 1, 2, 1, false⟩ ⟨100, 1, 6, 1, 1, false⟩ ⟨200, 1, 2, 2, 1, false⟩ :=
+  ⟨by shapes_dec, rfl, by decide, _, rfl, Or.inr (fun h => absurd (h.elems 1 0 (by decide) (by decide) (by decide) (by decide)) (by decide))⟩
+
+/-- gemm.hpp:71 [(((a.s1 = 1) ∧ (b.s0 = 1)) ∧ (c.s0 = 1)) ; (a.n0 = 1)] at size class m1ngk1: legal call, element (0,1) of the result is wrong -/
+theorem finding_gemm_nn_branch_12 : GemmCounterexample gemm_n_nn.guard_12 gemm_n_nn.call_12 ⟨0, 1, 1, 1, 1, false⟩ ⟨100, 1, 4, 1, 4, false⟩ ⟨200, 1, 4, 1, 4, false⟩ :=
+  ⟨by shapes_dec, rfl, by decide, _, rfl, Or.inr (fun h => absurd (h.elems 0 1 (by decide) (by decide) (by decide) (by decide)) (by decide))⟩
+
+/-- gemm.hpp:76 [(((a.s1 = 1) ∧ (b.s0 = 1)) ∧ (c.s1 = 1)) ; (a.n0 = 1)] at size class m1ngk1: legal call, element (0,1) of the result is wrong -/
+theorem finding_gemm_nn_branch_14 : GemmCounterexample gemm_n_nn.guard_14 gemm_n_nn.call_14 ⟨0, 3, 1, 1, 1, false⟩ ⟨100, 1, 2, 1, 4, false⟩ ⟨200, 4, 1, 1, 4, false⟩ :=
+  ⟨by shapes_dec, rfl, by decide, _, rfl, Or.inr (fun h => absurd (h.elems 0 1 (by decide) (by decide) (by decide) (by decide)) (by decide))⟩
+
+/-- gemm.hpp:62 [(((a.s1 = 1) ∧ (b.s1 = 1)) ∧ (c.s0 = 1))] at size class mgngk0: illegal call (XERBLA parameter 10) -/
+theorem finding_gemm_nn_branch_15 : GemmCounterexample gemm_n_nn.guard_15 gemm_n_nn.call_15 ⟨0, 3, 1, 3, 0, false⟩ ⟨100, 1, 1, 0, 4, false⟩ ⟨200, 1, 3, 3, 4, false⟩ :=
+  ⟨by shapes_dec, rfl, by decide, _, rfl, Or.inl (by decide)⟩
+
+/-- gemm.hpp:61 [(((a.s1 = 1) ∧ (b.s1 = 1)) ∧ (c.s0 = 1)) ; (a.n0 = 1)] at size class m1n1kg: legal call, element (0,0) of the result is wrong -/
+theorem finding_gemm_nn_branch_16 : GemmCounterexample gemm_n_nn.guard_16 gemm_n_nn.call_16 ⟨0, 6, 1, 1, 4, false⟩ ⟨100, 2, 1, 4, 1, false⟩ ⟨200, 1, 2, 1, 1, false⟩ :=
+  ⟨by shapes_dec, rfl, by decide, _, rfl, Or.inr (fun h => absurd (h.elems 0 0 (by decide) (by decide) (by decide) (by decide)) (by decide))⟩
+
+/-- gemm.hpp:59 [(((a.s1 = 1) ∧ (b.s1 = 1)) ∧ (c.s1 = 1))] at size class mgngk0: illegal call (XERBLA parameter 8) -/
+theorem finding_gemm_nn_branch_17 : GemmCounterexample gemm_n_nn.guard_17 gemm_n_nn.call_17 ⟨0, 4, 1, 2, 0, false⟩ ⟨100, 1, 1, 0, 2, false⟩ ⟨200, 5, 1, 2, 2, false⟩ :=
+  ⟨by shapes_dec, rfl, by decide, _, rfl, Or.inl (by decide)⟩
+
+/-- gemm.hpp:57 [(((a.s1 = 1) ∧ (b.s1 = 1)) ∧ (c.s1 = 1)) ; ((a.n0 = 1) ∧ (b.n1 = 1))] at size class m1n1kg: legal call, element (0,0) of the result is wrong -/
+theorem finding_gemm_nn_branch_18 : GemmCounterexample gemm_n_nn.guard_18 gemm_n_nn.call_18 ⟨0, 1, 1, 1, 3, false⟩ ⟨100, 5, 1, 3, 1, false⟩ ⟨200, 1, 1, 1, 1, false⟩ :=
+  ⟨by shapes_dec, rfl, by decide, _, rfl, Or.inr (fun h => absurd (h.elems 0 0 (by decide) (by decide) (by decide) (by decide)) (by decide))⟩
+
+/-- gemm.hpp:58 [(((a.s1 = 1) ∧ (b.s1 = 1)) ∧ (c.s1 = 1)) ; (a.n0 = 1)] at size class m1ngk0: illegal call (XERBLA parameter 8) -/
+theorem finding_gemm_nn_branch_19 : GemmCounterexample gemm_n_nn.guard_19 gemm_n_nn.call_19 ⟨0, 4, 1, 1, 0, false⟩ ⟨100, 1, 1, 0, 2, false⟩ ⟨200, 2, 1, 1, 2, false⟩ :=
+  ⟨by shapes_dec, rfl, by decide, _, rfl, Or.inl (by decide)⟩
+
 end Multi.C13
